@@ -353,8 +353,28 @@ fn output_result_xml<T: serde::Serialize>(result: T) -> Result<()> {
                     _ => value.to_string().trim_matches('"').to_string(),
                 };
 
-                // Create a text node with the converted string value.
-                writer.write_event(Event::Text(BytesText::new(&text_string)))?;
+                // Create a text node with the converted string value. Control characters are
+                // only allowed as character references in XML 1.1, and a literal line-end
+                // character (CR, NEL, LS) would be read back as a line feed.
+                let mut escaped = String::with_capacity(text_string.len());
+                for character in text_string.chars() {
+                    match character {
+                        '<' => escaped.push_str("&lt;"),
+                        '>' => escaped.push_str("&gt;"),
+                        '&' => escaped.push_str("&amp;"),
+                        '\u{1}' ..= '\u{8}'
+                        | '\u{b}'
+                        | '\u{c}'
+                        | '\u{e}' ..= '\u{1f}'
+                        | '\u{7f}' ..= '\u{84}'
+                        | '\u{86}' ..= '\u{9f}'
+                        | '\r'
+                        | '\u{85}'
+                        | '\u{2028}' => escaped.push_str(&format!("&#x{:X};", character as u32)),
+                        _ => escaped.push(character),
+                    }
+                }
+                writer.write_event(Event::Text(BytesText::from_escaped(escaped)))?;
 
                 if let Some(key) = key {
                     // Close the XML element.
